@@ -13,4 +13,5 @@ CONSTANTS
   AckLate = TRUE
   RecordBefore = TRUE
   StrictStart = FALSE
+  Unrequests = FALSE
 CHECK_DEADLOCK FALSE
